@@ -196,6 +196,27 @@ def initial_states(kind):
     return outs
 
 
+def host_object(hm, cname, *args, **kwargs):
+    """a stand-in instance of a host class, initialised by the class's own __init__ (evaluated by the checker's interpreter)"""
+    T = type(cname + "Obj", (dl.Synth,), {})
+    o = T()
+    o.__dl_class__ = cname
+    init = hm.funcs.get(f"{cname}.__init__")
+    if init is not None:
+        try:
+            out = dl.Interp(hm).call(init, [o] + list(args), dict(kwargs))
+        except dl.Unsupported as e:
+            raise AnalysisError(f"host {cname}.__init__ left the evaluable subset: {e}")
+        if out.kind != "return":
+            raise AnalysisError(f"host {cname}.__init__ raises {out.value} for {args} {kwargs}")
+    for c_ in hm.classes[cname].body:
+        if isinstance(c_, ast.Assign) and isinstance(c_.targets[0], ast.Name):
+            v_ = try_const(c_.value, hm, hm.classes[cname])
+            if v_ is not None and not hasattr(o, c_.targets[0].id):
+                setattr(o, c_.targets[0].id, v_)
+    return o
+
+
 def run(cx):
     em, pm = mod(EMITTER), mod(PARSER)
     cx.consulted(em)
@@ -429,9 +450,8 @@ def run(cx):
         body = l2.functions_of(res.text, ["setup"])["setup"][0]["body"][len(b0):]
         hfn = hled.func(f"Led.{meth}")
         for br in range(0, 256):
-            o = HL()
-            o.__dl_class__ = "Led"
-            o.pin, o.brightness, o.state = 7, br, br > 0
+            o = host_object(hled, "Led", 7)
+            o.brightness, o.state = br, br > 0
             hit = dl.Interp(hled)
             try:
                 hout = hit.call(hfn, [o] + list(margs))
@@ -457,6 +477,150 @@ def run(cx):
                 else:
                     r.stat.obligations += 1
                     r.stat.failed += 1
+
+    # ---- C04-MOTOR-EQUIV ---------------------------------------------------------------------
+    r = cx.rule("C04-MOTOR-EQUIV", "for every DCMotor state (speed in {-1,-0.5,0,0.5,1} x inverted x coast/brake/drive) and every command set_speed/backward/stop/coast/invert with arguments in and out of range, host class and firmware agree on speed, inversion, mode, applied speed, bridge direction and duty (to one PWM count)", floor=150, exhaustive=True)
+    hmot = mod("Actuators/DCMotor.py")
+    HM = type("MotorObj", (dl.Synth,), {})
+    b0m = l2.functions_of(pe.emit_program(setup=[l2.decl_node("DCMotor")], loop=[]).text, ["setup"])["setup"][0]["body"]
+    mcmds = [("DCMotorSetSpeed", {"speed": v_}, "set_speed", [v_]) for v_ in (-2, -1, -0.5, 0, 0.5, 1, 3)] + [("DCMotorBackward", {"speed": v_}, "backward", [v_]) for v_ in (0, 0.5, 1, -0.5)] + \
+            [("DCMotorStop", {}, "stop", []), ("DCMotorCoast", {}, "coast", []), ("DCMotorInvert", {}, "invert", [])]
+    n_bad = 0
+    for cname, kw, meth, margs in mcmds:
+        if cname not in cls:
+            continue
+        try:
+            node = cls[cname](name="dev", **kw)
+        except pe.IRRejected:
+            continue
+        res = pe.emit_program(setup=[l2.decl_node("DCMotor"), node], loop=[])
+        if res.raised:
+            raise AnalysisError(f"emit() raises for {cname}")
+        body = l2.functions_of(res.text, ["setup"])["setup"][0]["body"][len(b0m):]
+        hfn = hmot.func(f"DCMotor.{meth}")
+        for sp in (-1.0, -0.5, 0.0, 0.5, 1.0):
+            for inv in (False, True):
+                for mode0 in (("drive",) if sp != 0 else ("coast", "brake")):
+                    o = host_object(hmot, "DCMotor", 2, 4, 9)
+                    o._speed, o._inverted, o._mode, o._applied_speed = sp, inv, mode0, (-sp if inv else sp)
+                    try:
+                        hout = dl.Interp(hmot).call(hfn, [o] + list(margs))
+                    except dl.Unsupported as e:
+                        raise AnalysisError(f"host DCMotor.{meth} left the evaluable subset: {e}")
+                    k = ckern_.Kern(env={"__dc_speed_dev": sp, "__dc_inverted_dev": int(inv), "__dc_mode_dev": mode0}, types={"__dc_speed_dev": "float", "__dc_inverted_dev": "bool", "__dc_mode_dev": "String"})
+                    try:
+                        k.block(body)
+                    except ckern_.KernUnsupported as e:
+                        raise AnalysisError(f"{cname} kernel left the evaluable subset: {e}")
+                    lv = {}
+                    for nm, a_ in k.events:
+                        if nm in ("digitalWrite", "analogWrite") and len(a_) == 2:
+                            lv[int(a_[0])] = a_[1]
+                    f_speed, f_inv, f_mode = k.env["__dc_speed_dev"], bool(k.env["__dc_inverted_dev"]), k.env["__dc_mode_dev"]
+                    f_applied = -f_speed if f_inv else f_speed
+                    want_duty = int(abs(o._applied_speed) * 255 + 0.5)
+                    want_dir = (1, 1) if o._mode == "brake" else (0, 0) if o._mode == "coast" else ((1, 0) if o._applied_speed > 0 else (0, 1))
+                    good = hout.kind == "return" and abs(f_speed - o._speed) < 1e-6 and f_inv == o._inverted and f_mode == o._mode and abs(f_applied - o._applied_speed) < 1e-6 \
+                        and (lv.get(2), lv.get(4)) == want_dir and lv.get(9) is not None and abs(lv.get(9) - want_duty) <= 1
+                    if good:
+                        r.ok(None)
+                    else:
+                        n_bad += 1
+                        if n_bad <= 3:
+                            r.fail(f"DCMotor.{meth}/firmware=host", (em, em.func("_emit_block")), f"from (speed {sp}, inverted {inv}, mode {mode0}): motor.{meth}({', '.join(map(str, margs))}) -> host (speed {o._speed}, inverted {o._inverted}, mode {o._mode}, applied {o._applied_speed}); firmware (speed {f_speed}, inverted {f_inv}, mode {f_mode}, IN1/IN2 {lv.get(2)}/{lv.get(4)}, duty {lv.get(9)})", detail={"speed": sp, "inverted": inv, "mode": mode0, "method": meth, "args": margs})
+                        else:
+                            r.stat.obligations += 1
+                            r.stat.failed += 1
+
+    # ---- C04-RGB-EQUIV / C04-SERVO-EQUIV -----------------------------------------------------
+    r = cx.rule("C04-RGB-EQUIV", "RGBLed set_color/on/off: from every start colour of a grid and for in-range components, host and firmware agree on the stored colour, get_state and the three PWM duties", floor=40, exhaustive=True)
+    hrgb = mod("Actuators/RGBLed.py")
+    HR = type("RGBObj", (dl.Synth,), {})
+    b0r = l2.functions_of(pe.emit_program(setup=[l2.decl_node("RGBLed")], loop=[]).text, ["setup"])["setup"][0]["body"]
+    comps = [(0, 0, 0), (255, 255, 255), (1, 0, 0), (0, 128, 255), (10, 20, 30)]
+    rcmds = [("RGBLedSetColor", {"red": c_[0], "green": c_[1], "blue": c_[2]}, "set_color", list(c_)) for c_ in comps] + [("RGBLedOn", {"red": c_[0], "green": c_[1], "blue": c_[2]}, "on", list(c_)) for c_ in comps[1:4]] + [("RGBLedOff", {}, "off", [])]
+    n_bad = 0
+    for cname, kw, meth, margs in rcmds:
+        try:
+            node = cls[cname](name="dev", **kw)
+        except pe.IRRejected:
+            continue
+        res = pe.emit_program(setup=[l2.decl_node("RGBLed"), node], loop=[])
+        if res.raised:
+            raise AnalysisError(f"emit() raises for {cname}")
+        body = l2.functions_of(res.text, ["setup"])["setup"][0]["body"][len(b0r):]
+        for start in comps:
+            o = host_object(hrgb, "RGBLed", 3, 5, 6)
+            o._color, o._state = tuple(start), any(x > 0 for x in start)
+            try:
+                hout = dl.Interp(hrgb).call(hrgb.func(f"RGBLed.{meth}"), [o] + list(margs))
+            except dl.Unsupported as e:
+                raise AnalysisError(f"host RGBLed.{meth} left the evaluable subset: {e}")
+            k = ckern_.Kern(env={"__rgb_red_dev": start[0], "__rgb_green_dev": start[1], "__rgb_blue_dev": start[2], "__rgb_state_dev": int(any(x > 0 for x in start))},
+                            types={"__rgb_red_dev": "int", "__rgb_green_dev": "int", "__rgb_blue_dev": "int", "__rgb_state_dev": "bool"})
+            try:
+                k.block(body)
+            except ckern_.KernUnsupported as e:
+                raise AnalysisError(f"{cname} kernel left the evaluable subset: {e}")
+            duty = {}
+            for nm, a_ in k.events:
+                if nm == "analogWrite" and len(a_) == 2:
+                    duty[int(a_[0])] = a_[1]
+            fcol = (k.env["__rgb_red_dev"], k.env["__rgb_green_dev"], k.env["__rgb_blue_dev"])
+            good = hout.kind == "return" and fcol == tuple(o._color) and bool(k.env["__rgb_state_dev"]) == bool(o._state) and (duty.get(3), duty.get(5), duty.get(6)) == tuple(o._color)
+            if good:
+                r.ok(None)
+            else:
+                n_bad += 1
+                if n_bad <= 3:
+                    r.fail(f"RGBLed.{meth}/firmware=host", (em, em.func("_emit_block")), f"from colour {start}: rgb.{meth}({', '.join(map(str, margs))}) -> host (colour {o._color}, state {o._state}); firmware (colour {fcol}, state {bool(k.env['__rgb_state_dev'])}, duties {(duty.get(3), duty.get(5), duty.get(6))})", detail={"start": start, "method": meth, "args": margs})
+                else:
+                    r.stat.obligations += 1
+                    r.stat.failed += 1
+
+    r = cx.rule("C04-SERVO-EQUIV", "Servo write/write_us: for three calibrations (default, 10..170 / 500..2500, -90..90) and in-range arguments host and firmware agree on read() and read_us() (1e-3) and the value handed to the Servo library (nearest integer)", floor=20, exhaustive=True)
+    hsv = mod("Actuators/Servo.py")
+    HS = type("ServoObj", (dl.Synth,), {})
+    calibs = [(0.0, 180.0, 544.0, 2400.0), (10.0, 170.0, 500.0, 2500.0), (-90.0, 90.0, 544.0, 2400.0)]
+    n_bad = 0
+    for cal in calibs:
+        decl = l2.decl_node("Servo", min_angle=cal[0], max_angle=cal[1], min_pulse_us=cal[2], max_pulse_us=cal[3])
+        b0s = l2.functions_of(pe.emit_program(setup=[decl], loop=[]).text, ["setup"])["setup"][0]["body"]
+        for cname, fld, meth, frac in (("ServoWrite", "angle", "write", (0.0, 0.25, 0.5, 1.0)), ("ServoWriteMicroseconds", "pulse_us", "write_us", (0.0, 0.3, 0.5, 1.0))):
+            lo_, hi_ = (cal[0], cal[1]) if meth == "write" else (cal[2], cal[3])
+            for fr in frac:
+                arg = lo_ + (hi_ - lo_) * fr
+                try:
+                    node = cls[cname](name="dev", **{fld: arg})
+                except pe.IRRejected:
+                    continue
+                res = pe.emit_program(setup=[decl, node], loop=[])
+                if res.raised:
+                    raise AnalysisError(f"emit() raises for {cname}")
+                body = l2.functions_of(res.text, ["setup"])["setup"][0]["body"][len(b0s):]
+                o = host_object(hsv, "Servo", 7, min_angle=cal[0], max_angle=cal[1], min_pulse_us=cal[2], max_pulse_us=cal[3])
+                try:
+                    hout = dl.Interp(hsv).call(hsv.func(f"Servo.{meth}"), [o, arg])
+                except dl.Unsupported as e:
+                    raise AnalysisError(f"host Servo.{meth} left the evaluable subset: {e}")
+                env = {"__servo_min_angle_dev": cal[0], "__servo_max_angle_dev": cal[1], "__servo_min_pulse_dev": cal[2], "__servo_max_pulse_dev": cal[3], "__servo_angle_dev": cal[0], "__servo_pulse_dev": cal[2], "__servo_dev": 0}
+                k = ckern_.Kern(env=env, types={k_: "float" for k_ in env if k_ != "__servo_dev"})
+                try:
+                    k.block(body)
+                except ckern_.KernUnsupported as e:
+                    raise AnalysisError(f"{cname} kernel left the evaluable subset: {e}")
+                libcall = [a_ for nm, a_ in k.events if nm in ("write", "writeMicroseconds")]
+                want_lib = int((o._current_angle if meth == "write" else o._current_pulse) + 0.5) if (o._current_angle if meth == "write" else o._current_pulse) >= 0 else None
+                good = hout.kind == "return" and abs(k.env["__servo_angle_dev"] - o._current_angle) < 1e-2 and abs(k.env["__servo_pulse_dev"] - o._current_pulse) < 1e-1 and len(libcall) == 1 and (want_lib is None or abs(libcall[0][0] - want_lib) <= 1)
+                if good:
+                    r.ok(None)
+                else:
+                    n_bad += 1
+                    if n_bad <= 3:
+                        r.fail(f"Servo.{meth}/firmware=host", (em, em.func("_emit_block")), f"calibration {cal}: servo.{meth}({arg}) -> host (angle {o._current_angle}, pulse {o._current_pulse}); firmware (angle {k.env['__servo_angle_dev']}, pulse {k.env['__servo_pulse_dev']}, library call {libcall})", detail={"calibration": cal, "method": meth, "arg": arg})
+                    else:
+                        r.stat.obligations += 1
+                        r.stat.failed += 1
 
     # ---- C04-COND ----------------------------------------------------------------------------
     r = cx.rule("C04-COND", "the branch decisions of time-sequenced commands are taken on the same quantities as in the host model (RGBLed.fade jumps straight to the target iff duration == 0 or the colour is already the target; blink/fade loop headers count what the host counts)", floor=4)
